@@ -225,6 +225,9 @@ func (e *Enc) heap(st *State, name string, s Sort) Val {
 // heapWF: every reference stored in a heap points to an object allocated before `next`
 // (a type invariant of Go memory; asserted for entry heaps and for heaps havocked at loop heads).
 func (e *Enc) heapWF(h Val, next Val) {
+	if !heapWFEnabled {
+		return // costs a quantified fact per heap; currently no proof needs it
+	}
 	k, v := h.S.ArrayParts()
 	if k != SLoc {
 		return
@@ -293,8 +296,6 @@ func (e *Enc) check(st *State, kind, label string, cond Val, pos token.Pos) {
 func (o *Oblig) Query(timeoutMs int) string {
 	e := o.Enc
 	var b strings.Builder
-	b.WriteString("(set-option :produce-models true)\n(set-logic ALL)\n")
-	b.WriteString(e.P.W.Preamble())
 	var goal string
 	if o.IsCover {
 		goal = And(o.Reach, o.Cond).T
@@ -382,10 +383,12 @@ func (o *Oblig) Query(timeoutMs int) string {
 	}
 	b.WriteString("(assert " + goal + ")\n")
 	b.WriteString("(check-sat)\n")
-	return b.String()
+	body := b.String()
+	return "(set-option :produce-models true)\n(set-logic ALL)\n" + e.P.W.Preamble(body) + body
 }
 
 var noSlice = false
+var heapWFEnabled = false
 
 // queryAllDecls is Query with every declaration of the unit and the definitional facts
 // added from index factsFrom on (used for model extraction, where entry-heap constants
